@@ -29,6 +29,10 @@ pub struct Fixture {
     pub sub_a: Element,
     /// DATA-CONSTR-RULES with two rules that are not in sorted order (sort() has something to do; unnamed sub elements can be added)
     pub dc_rules: Element,
+    /// ELEMENTS of a package C that lives in the first file only, and an I-SIGNAL of package A that lives in the second file only:
+    /// moving the one into the other has to drop the restriction of the moved element
+    pub elements_c: Element,
+    pub sig_r: Element,
 }
 
 pub const DOC_NEW: &str = "<?xml version=\"1.0\" encoding=\"utf-8\"?>\n<AUTOSAR xsi:schemaLocation=\"http://autosar.org/schema/r4.0 AUTOSAR_00050.xsd\" xmlns=\"http://autosar.org/schema/r4.0\" xmlns:xsi=\"http://www.w3.org/2001/XMLSchema-instance\"><AR-PACKAGES><AR-PACKAGE><SHORT-NAME>Loaded</SHORT-NAME><ELEMENTS><SYSTEM><SHORT-NAME>LSys</SHORT-NAME></SYSTEM></ELEMENTS></AR-PACKAGE></AR-PACKAGES></AUTOSAR>";
@@ -73,7 +77,16 @@ pub fn fixture(mixed_versions: bool) -> Fixture {
             .and_then(|l| l.set_character_data(level))
             .unwrap();
     }
+    let pkg_c = pkgs.create_named_sub_element(ElementName::ArPackage, "R").unwrap();
+    let elements_c = pkg_c.create_sub_element(ElementName::Elements).unwrap();
+    let sig_r = elements_a.create_named_sub_element(ElementName::ISignal, "SigR").unwrap();
+    if !mixed_versions {
+        pkg_c.remove_from_file(&f2).unwrap();
+        sig_r.remove_from_file(&f1).unwrap();
+    }
     Fixture {
+        elements_c,
+        sig_r,
         model,
         f1,
         f2,
@@ -139,6 +152,7 @@ pub fn catalogue() -> Vec<OpDef> {
         OpDef { name: "pkg_a.set_item_name(A2)", writer: true, run: |f| r(f.pkg_a.set_item_name("A2"), |()| String::new()) },
         OpDef { name: "ecu.set_item_name(Ecu2)", writer: true, run: |f| r(f.ecu.set_item_name("Ecu2"), |()| String::new()) },
         OpDef { name: "elements_b.move(ecu)", writer: true, run: |f| r(f.elements_b.move_element_here(&f.ecu), |e| e.item_name().unwrap_or_default()) },
+        OpDef { name: "elements_c.move(sig_r)", writer: true, run: |f| r(f.elements_c.move_element_here(&f.sig_r), |e| format!("{}:{:?}", e.item_name().unwrap_or_default(), e.file_membership().map(|(l, s)| (l, s.len())).ok())) },
         OpDef { name: "sub_a.move(pkg_b)", writer: true, run: |f| r(f.sub_a.move_element_here(&f.pkg_b), |e| e.item_name().unwrap_or_default()) },
         OpDef { name: "dc_rules.create(DATA-CONSTR-RULE)", writer: true, run: |f| r(f.dc_rules.create_sub_element(ElementName::DataConstrRule), |_| String::new()) },
         OpDef { name: "root.remove(pkgs)", writer: true, run: |f| r(f.model.root_element().remove_sub_element(f.pkgs.clone()), |()| String::new()) },
@@ -367,7 +381,13 @@ fn judge(prop: &str, rep: &mut Report, ops: &[&OpDef], mixed: bool, out: &Outcom
             return;
         }
         let nearest = seq.0.iter().find(|s| s.results == results).or(seq.0.first());
-        let diff = nearest.map_or(String::new(), |s| crate::histprops::first_diff(&s.state, &state));
+        let mut diff = nearest.map_or(String::new(), |s| crate::histprops::first_diff(&s.state, &state));
+        if locked.len() == 1 {
+            // what the call that reported ParentElementLocked changed nevertheless: difference to the run without it
+            if let Some((_, s)) = seq.1.iter().find(|(skip, s)| *skip == locked[0] && (0..results.len()).all(|i| i == *skip || s.results[i] == results[i])) {
+                diff = format!("{diff}; compared with the run in which the failing call is left out: {}", crate::histprops::first_diff(&s.state, &state));
+            }
+        }
         // operations that are not atomic with respect to anything: one signature for the operation, whatever the partner
         let family = if names.iter().any(|n| n.starts_with("model.create_file")) {
             Some("create_file gives up on contended locks (try_lock / 10 ms timeouts in add_to_file_restricted) and loses file sets")
